@@ -114,6 +114,7 @@ func (m *Machine) callBody(fn *ssa.Function, args []Value, env []Value, isInit b
 	for {
 		var next *ssa.BasicBlock
 		for _, in := range b.Instrs {
+			m.curInstr = in
 			m.steps++
 			if m.steps > m.cfg.MaxSteps {
 				m.inconclusive(fmt.Sprintf("step limit %d (unwinding bound) exceeded @ %s", m.cfg.MaxSteps, m.where()))
@@ -392,6 +393,7 @@ func (m *Machine) exec(fr *frame, in ssa.Instruction) {
 		if mp == nil {
 			m.goPanic("assignment to entry in nil map")
 		}
+		m.accessMap(mp, true)
 		k, v := m.get(fr, x.Key), m.get(fr, x.Value)
 		for i, kk := range mp.K {
 			if m.keyEq(kk, k) {
@@ -405,6 +407,7 @@ func (m *Machine) exec(fr *frame, in ssa.Instruction) {
 		k := m.get(fr, x.Index)
 		switch b := m.get(fr, x.X).(type) {
 		case *Map:
+			m.accessMap(b, false)
 			var res Value = zero(x.X.Type().Underlying().(*types.Map).Elem())
 			found := false
 			if b != nil {
